@@ -229,9 +229,9 @@ mod top;
 use top::Topology;
 pub use top::{LinkIter, LinksIter, SentRef};
 
-mod world;
 #[cfg(turmoil_verif)]
 pub mod verif;
+mod world;
 use world::World;
 
 const TRACING_TARGET: &str = "turmoil";
